@@ -133,6 +133,18 @@ EXTRA = {
             ("SafeC.Fold.hot_single_le", "SafeC.Proofs.FoldStr", "table", "_towfc_single maps every code point of the hot ranges to a code point (outside them it is the identity): what wcsfc_s hands to _decomp_s is a valid table index"),
             ("SafeC.Fold.fold_announce_exceptions", "SafeC.Proofs.FoldCount", "full", "each of the 748 listed code points really disagrees (announces 0 but folds / announces 1 but unchanged): the exception lists of fold_announce_partial are tight"),
             ("SafeC.Fold.tables_lit", "SafeC.Proofs.FoldCount", "table", "the written-out copies of casemaps / pairs / casemapsl used by the fold proofs equal the generated tables")],
+    "C09": [("SafeC.Fmt.Gram.PParse.unique", "SafeC.Proofs.FmtGram", "lemma", "the printf grammar of the standard (inductive PParse) is unambiguous: a format has at most one reading, with or without an n conversion"),
+            ("SafeC.Fmt.Gram.PParse.append", "SafeC.Proofs.FmtGram", "lemma", "text before and after: formats of the grammar concatenate, the n flags are or-ed"),
+            ("SafeC.Fmt.Gram.pparse_n_anywhere", "SafeC.Proofs.FmtGram", "lemma", "every spelling % flags width .prec length n between two formats of the grammar is an n conversion"),
+            ("SafeC.Fmt.Gram.look_sound", "SafeC.Proofs.FmtScan", "lemma", "the pre-scan followed through a derivation of the printf grammar, any character in front: it rejects only formats with an n conversion (induction over the format)"),
+            ("SafeC.Fmt.Gram.slook_sound", "SafeC.Proofs.FmtScan", "lemma", "the same for the scanf grammar without % in scan sets"),
+            ("SafeC.Fmt.Gram.PRej_of_look", "SafeC.Proofs.FmtScan", "lemma", "a grammatical format the pre-scan rejects is in PRej (bare %n before every %%n, not directly behind %%)"),
+            ("SafeC.Fmt.Gram.look_of_PRej", "SafeC.Proofs.FmtScan", "lemma", "every format in PRej is rejected by the pre-scan"),
+            ("SafeC.Fmt.Gram.engDirective_gram", "SafeC.Proofs.FmtEngine", "lemma", "one conversion specification of the grammar: the engine's flag loop, width, precision and length phases consume exactly the decoration; FLAGS_LONG_DOUBLE iff L"),
+            ("SafeC.Fmt.Gram.engLoop_gram", "SafeC.Proofs.FmtEngine", "lemma", "the engine's loop on a format of the grammar, induction over the format: case 'n' iff an n conversion, unless %L+integer stopped it before; never the default exit"),
+            ("SafeC.Printf.directive_ok_next", "SafeC.Proofs.PrintfN", "lemma", "whenever the full engine model (arguments, output, run-time failures) gets through a conversion specification, the directive-parser model reads the same characters and continues"),
+            ("SafeC.Printf.engLoop_ok_none", "SafeC.Proofs.PrintfN", "lemma", "induction over the loop: the full engine returns normally only if the directive-parser model did not stop"),
+            ("SafeC.Printf.engine_good", "SafeC.Proofs.PrintfFrame", "lemma", "the full engine, every format and argument list (Good judgement walked over every conversion, induction over the format): error exits return negative values; a normal return stored only into dest[0..bufsize) and the stream")],
     "C08": [("SafeC.nullSlack_ok", "SafeC.Lemmas", "lemma", "both slack strategies (memset > 0x20, byte loop) zero the whole tail")],
     "C18": [("SafeC.setPrologue_ok", "SafeC.Proofs.MemSet", "lemma", "mem_prim_set alignment prologue: k <= count bytes stored, stops aligned or exhausted"),
             ("SafeC.setBlocks_ok", "SafeC.Proofs.MemSet", "lemma", "mem_prim_set 16-way unrolled body, induction on the block count: q*128 bytes"),
